@@ -641,8 +641,37 @@ def r20(ctx):
         raise AnalysisBroken('C05.R20: the weekday skip of the 4 byte dates was not recognised')
 
 
+def r22(ctx):
+    ctx.rule('C05.R22', 'the replacement pattern of a value list field is never printed as a number: in '
+             'ValueListDataField::readSymbols every insertion of the raw value into the output is guarded by "the value is '
+             'listed" (the iterator of the lookup is not end()) or by "the value is not the replacement value" - in every '
+             'output format, the numeric one included, an unlisted replacement pattern decodes to the null value', minimum=3)
+    fb = ctx.fb
+    fn = fb.fn('ebusd::ValueListDataField::readSymbols')
+    ctx.touch(fn)
+    raw = fn.outarg('DataType::readRawValue', 3)
+    if raw is None:
+        raise AnalysisBroken('C05.R22: raw value of ValueListDataField::readSymbols not recognised')
+    n = 0
+    for x, v in sorted(fn.nodes.items()):
+        if not (v['k'] == 'CXXOperatorCallExpr' and v.get('op') == '<<' and v.get('args') and fn.key(v['args'][1]) == raw):
+            continue
+        n += 1
+        atoms = set((a[0], a[1]) for a in fn.atoms(x))
+        listed = any(not pol and k.endswith('.end())') and '==' in k and '&&' not in k and '||' not in k for k, pol in atoms) or \
+            any(pol and k.endswith('.end())') and '!=' in k and '&&' not in k and '||' not in k for k, pol in atoms)
+        notrepl = any(k.startswith('(%s == ' % raw) and 'getReplacement()' in k and not pol and '&&' not in k and '||' not in k for k, pol in atoms)
+        ok = listed or notrepl
+        ctx.ob('C05.R22', fn, x, ok, 'raw value printed as a number', 'only for a listed value (%s) or one that is not the replacement value (%s)' % (listed, notrepl))
+    if n < 3:
+        raise AnalysisBroken('C05.R22: only %d numeric outputs found in ValueListDataField::readSymbols' % n)
+
+
 def run(ctx):
+    r22(ctx)
     r20(ctx)
+    import rules.C06 as _c06p
+    ctx.borrow(_c06p.r15, {'C06.R15': 'C05.R21'}, 'fixed-point fractions are printed with the precision of the type: the number of decimals of every divisor up to the maximum one')
     r18(ctx)
     r19(ctx)
     import rules.common as _cm
